@@ -205,8 +205,42 @@ fn catalogue() -> Vec<(Case, bool)> {
         ("x := 1\nif true {\n    fn x() {\n        return 2\n    }\n    print(x())\n}\nprint(x)\ni := 0\nwhile i < 2 {\n    i += 1\n    fn helper() {\n        return i\n    }\n    print(helper())\n}\n", "2\n1\n1\n2\n"),
         ("{\n    fn inner() {\n        return 1\n    }\n}\nfn inner() {\n    return 2\n}\nprint(inner())\n", "2\n"),
     ];
-    let mut out: Vec<(Case, bool)> = ok.into_iter().map(|(s, e)| (Case{property: "C20".into(), kind: "catalogue".into(), srcs: vec![s.as_bytes().to_vec()], pred: Pred::Expect(Expect::ok(e.as_bytes().to_vec())), note: "_ never binds; inner scopes may reuse names".into()}, true)).collect();
-    let errs: Vec<(&str, &str, Vec<DiagPred>)> = vec![
+    let mut ok: Vec<(String, String)> = ok.into_iter().map(|(a, b)| (a.to_string(), b.to_string())).collect();
+    {
+        // Thirty declarations in one scope, each readable; inner scopes may
+        // reuse all of them.
+        let mut src = String::new();
+        let mut sum = 0;
+        for k in 0..30 {
+            src.push_str(&format!("name_{k:02} := {k}\n"));
+            sum += k;
+        }
+        src.push_str("{\n");
+        for k in 0..30 {
+            src.push_str(&format!("    name_{k:02} := {}\n", k * 2));
+        }
+        src.push_str("    print(name_17 + name_29)\n}\n");
+        src.push_str(&format!("print({})\n", (0..30).map(|k| format!("name_{k:02}")).collect::<Vec<_>>().join(" + ")));
+        let long = "an_identifier_that_is_quite_a_bit_longer_than_thirty_two_characters_x";
+        src.push_str(&format!("{long} := 5\n{long}2 := {long} + 1\nprint({long}2)\n"));
+        ok.push((src, format!("{}\n{sum}\n6\n", 17 * 2 + 29 * 2)));
+    }
+    let mut out: Vec<(Case, bool)> = ok.iter().map(|(s, e)| (Case{property: "C20".into(), kind: "catalogue".into(), srcs: vec![s.as_bytes().to_vec()], pred: Pred::Expect(Expect::ok(e.as_bytes().to_vec())), note: "_ never binds; inner scopes may reuse names".into()}, true)).collect();
+    let errs: Vec<(String, &str, Vec<DiagPred>)> = {
+        let mut many = String::new();
+        for k in 0..30 {
+            many.push_str(&format!("  name_{k:02} := {k}\n"));
+        }
+        many.push_str("name_17 := 0\n");
+        let long = "an_identifier_that_is_quite_a_bit_longer_than_thirty_two_characters_x";
+        let v: Vec<(String, &str, Vec<DiagPred>)> = vec![
+            (many, "", vec![DiagPred::MsgContains(vec!["18:3".into()])]),
+            (format!("{long} := 1\nprint({long}y)\n"), "", vec![DiagPred::Pos{line: 2, col: 7}]),
+            (format!("{long} := 1\n\t{long} := 2\n"), "", vec![DiagPred::MsgContains(vec!["1:1".into()])]),
+        ];
+        v
+    };
+    let errs0: Vec<(&str, &str, Vec<DiagPred>)> = vec![
         ("print(1)\n_ := 1\nprint(_)\n", "1\n", vec![DiagPred::Pos{line: 3, col: 7}]),
         ("{a, .._} := {\"a\": 1}\nprint(_)\n", "", vec![DiagPred::Pos{line: 2, col: 7}]),
         ("fn _() {\n    return 1\n}\nprint(_())\n", "", vec![DiagPred::Pos{line: 4, col: 7}]),
@@ -219,6 +253,7 @@ fn catalogue() -> Vec<(Case, bool)> {
         ("fn f(p) {\n    return p\n}\nf(1)\np += 1\n", "", vec![DiagPred::Pos{line: 5, col: 1}]),
         ("print(1)\nzz = 1\n", "1\n", vec![DiagPred::Pos{line: 2, col: 1}]),
     ];
+    let errs: Vec<(String, &str, Vec<DiagPred>)> = errs.into_iter().chain(errs0.into_iter().map(|(a, b, c)| (a.to_string(), b, c))).collect();
     for (s, o, mut preds) in errs {
         let mut e = Expect::err(o.as_bytes().to_vec());
         preds.insert(0, DiagPred::WellFormed{max_line: s.matches('\n').count() as u32 + 1});
